@@ -131,7 +131,8 @@ class Run:
         stdout = None
         if mode == 'f':
             so = self.scen.get('stdout', 'block')
-            stdout = faultio.make_stdout(world, line_buffering=(so == 'line'), buffer_size=(16 if so == 'tiny' else 8192))
+            stdout = faultio.make_stdout(world, line_buffering=(so == 'line'), buffer_size=(16 if so == 'tiny' else 8192),
+                                         backing_path=os.path.join(self.root, 'stdout.bin'))
             argv = ['-f', os.path.join(pels, 'p2_input'), '--clean'] + (['-x'] if self.scen.get('hex') else [])
         elif mode == 'j':
             argv = ['-p', pels, '-j', '--clean']
@@ -323,6 +324,20 @@ def _subproc(res):
         pr = subprocess.run([core.PY, clidrv.PELTOOL_PY, '-f', p, '--clean'], stdout=w_fd, stderr=subprocess.PIPE, env=env)
         os.close(w_fd)
         runs.append(('-f --clean | <closed pipe>', os.path.exists(p), True, 'output-failed'))
+        # 5b/5c. the same with a small PEL whose whole document stays in the stdout buffer until the final flush
+        small = pelgen.encode_pel(pelgen.pel_from_spec({'eid': 0x50000A09, 'sections': [{'t': 'PS'}]}))
+        p = fresh('in_pipe_small', small)
+        r_fd, w_fd = os.pipe()
+        os.close(r_fd)
+        pr = subprocess.run([core.PY, clidrv.PELTOOL_PY, '-f', p, '--clean'], stdout=w_fd, stderr=subprocess.PIPE, env=env)
+        os.close(w_fd)
+        runs.append(('-f <small> --clean | <closed pipe>', os.path.exists(p), True, 'output-failed'))
+        p = fresh('in_devfull_small', small)
+        rc, _, se = clidrv.run_subprocess(['-f', p, '--clean'], stdout_path='/dev/full')
+        runs.append(('-f <small> --clean > /dev/full', os.path.exists(p), True, 'output-failed'))
+        p = fresh('in_devfull_hex', small)
+        rc, _, se = clidrv.run_subprocess(['-f', p, '-x', '--clean'], stdout_path='/dev/full')
+        runs.append(('-f <small> -x --clean > /dev/full', os.path.exists(p), True, 'output-failed'))
         # 6. fault-free real runs remove the input (non-vacuity)
         p = fresh('in_ok', good)
         rc, so, se = clidrv.run_subprocess(['-f', p, '--clean'])
